@@ -1,5 +1,5 @@
 (* Model/C03Run.v - case types and checker evaluated on harness-generated cases (C03) *)
-From ReqV Require Export Lib.Bytes Lib.PackedBytes Model.BodyFraming Model.StreamBody Model.StreamWire Model.Interim.
+From ReqV Require Export Lib.Bytes Lib.PackedBytes Model.BodyFraming Model.StreamBody Model.StreamWire Model.Interim Model.TlsConn.
 
 (* what the harness saw for one exchange: error from the call, or the call succeeded and
    io.ReadAll(resp.Body) ended with [e] after [dlen] bytes; [prefix_ok]: the Go side
@@ -84,6 +84,10 @@ Inductive c03_case :=
          (coded : option (coding * N * N))
          (sent : bytes) (seen : h2_seen) (next_on_same_conn : bool)
 | H1GzCuts (hlen : N) (fr : framing) (wire z : bytes) (plain_len : N) (obs : list (N * option (bool * N)))
+(* HTTP/1.1 over TLS: the response as the plaintext of its TLS records; per observation: how
+   many records arrived whole, whether the TCP stream ended inside the next one, what the
+   caller saw *)
+| H1TlsCuts (hlen : N) (fr : framing) (recs : list bytes) (body : bytes) (obs : list (N * bool * h1_seen))
 (* one response stream cut at the listed offsets (the peer closes after k bytes) *)
 | H1Cuts (hlen : N) (fr : framing) (wire body : bytes) (obs : list (N * h1_seen))
 (* one complete exchange, possibly with extra bytes after the message, peer keeps the
@@ -152,6 +156,9 @@ Definition c03_check (c : c03_case) : bool :=
                end
         | _, _ => false
         end
+  | H1TlsCuts hlen fr recs body obs =>
+      forallb (fun o => let '(whole, mid, seen) := o in
+                        seen_matches body (h1_read_tls hlen fr recs (N.to_nat whole) mid) seen) obs
   | H1GzCuts hlen fr wire z plen obs =>
       forallb (fun ko => gz_matches z plen (h1_read hlen fr (firstn_N (fst ko) wire)) (snd ko)) obs
   | H1Cuts hlen fr wire body obs =>
